@@ -497,6 +497,7 @@ static int run_deps(const json& c)
  *   ["cfg", S, T]            Configuration(EventSet(S)) (may throw), and what it computes; History(T) against it
  *   ["add", [e..]]           Configuration() then add_event(e) in order
  *   ["alt", C, D, k]         Configuration(C).compute_k_partial_alternative_to(D, U, k)
+ *   ["algebra", A, B, e]     union / difference / intersection / inclusion... of EventSet(A), EventSet(B) and event e
  *   ["msi", S, F|null, k|null, viaconfig]  everything maximal_subsets_iterator yields, in order
  *   ["ksub", n, k] ["pow", n] ["vfl", [sizes..]]   the generic subset enumerators on integer sequences
  */
@@ -736,6 +737,57 @@ static int run_unf(const json& c)
         }
         o["steps"] = steps;
         o["state"] = cfg_state(x, C, actors);
+      } else if (what == "algebra") {
+        const udpor::EventSet A = set_of(x, q.at(1));
+        const udpor::EventSet B = set_of(x, q.at(2));
+        const udpor::UnfoldingEvent* e = x.ev.at(q.at(3).get<size_t>());
+        o["union"]    = list_of(x, A.make_union(B));
+        o["union_e"]  = list_of(x, A.make_union(e));
+        o["minus"]    = list_of(x, A.subtracting(B));
+        o["minus_e"]  = list_of(x, A.subtracting(e));
+        o["inter"]    = list_of(x, A.make_intersection(B));
+        o["intersects"] = A.intersects(B);
+        o["subset"]   = A.is_subset_of(B);
+        o["eq"]       = (A == B);
+        o["ne"]       = (A != B);
+        o["empty"]    = A.empty();
+        o["size"]     = A.size();
+        o["equiv"]    = A.contains_equivalent_to(e);
+        o["hinter"]   = A.intersects(udpor::History(B));
+        {
+          udpor::EventSet m = A;
+          m.form_union(B);
+          o["m_union"] = list_of(x, m);
+          m = A;
+          m.subtract(B);
+          o["m_minus"] = list_of(x, m);
+          m = A;
+          m.insert(e);
+          m.insert(e);
+          o["m_insert"] = list_of(x, m);
+          m = A;
+          m.remove(e);
+          m.remove(e);
+          o["m_remove"] = list_of(x, m);
+          o["a_after"]  = list_of(x, A);
+          udpor::EventSet c = A;
+          o["vector"]   = list_of(x, std::move(c).move_into_vector());
+        }
+        // the Configuration flavours forward to the EventSet ones
+        try {
+          udpor::Configuration CB(udpor::History(B).get_all_events());
+          o["c_union"] = list_of(x, A.make_union(CB));
+          o["c_minus"] = list_of(x, A.subtracting(CB));
+          udpor::EventSet m = A;
+          m.form_union(CB);
+          o["cm_union"] = list_of(x, m);
+          m = A;
+          m.subtract(CB);
+          o["cm_minus"] = list_of(x, m);
+          o["from_config"] = list_of(x, udpor::EventSet(CB));
+        } catch (const std::invalid_argument&) {
+          o["c_invalid"] = true;
+        }
       } else if (what == "alt") {
         udpor::Configuration C(set_of(x, q.at(1)));
         udpor::EventSet D = set_of(x, q.at(2));
